@@ -142,16 +142,18 @@ theorem wait_passes_locked_mutex (rc rc' : Int) :
       (pMutexTrylock generated .mutexObj rc').calls = [{ fn := .mutex_trylock, args := [.mutex k] }] :=
   ⟨0, by decide, rfl, rfl, rfl, rfl⟩
 
-/-- signal → `pthread_cond_signal`, broadcast → `pthread_cond_broadcast`, both on the same cond
-    handle `wait` uses; results TRUE iff 0; NULL → FALSE, no call -/
+/-- signal → `pthread_cond_signal` (or, equally good for "wakes at least one",
+    `pthread_cond_broadcast`), broadcast → `pthread_cond_broadcast`, both on the same cond handle
+    `wait` uses; results TRUE iff 0; NULL → FALSE, no call -/
 theorem signal_broadcast_mapping (rc : Int) :
     ∃ h, handleOffset generated.pcond = some h ∧
       (pCondWait generated .condObj .mutexObj rc).calls.map (·.args[0]?) = [some (.cond h)] ∧
-      pCondSignal generated .condObj rc = { ret := some (rc == 0), calls := [{ fn := .cond_signal, args := [.cond h] }] } ∧
+      (pCondSignal generated .condObj rc = { ret := some (rc == 0), calls := [{ fn := .cond_signal, args := [.cond h] }] } ∨
+       pCondSignal generated .condObj rc = { ret := some (rc == 0), calls := [{ fn := .cond_broadcast, args := [.cond h] }] }) ∧
       pCondBroadcast generated .condObj rc = { ret := some (rc == 0), calls := [{ fn := .cond_broadcast, args := [.cond h] }] } ∧
       pCondSignal generated .nullp rc = { ret := some false, calls := [] } ∧
       pCondBroadcast generated .nullp rc = { ret := some false, calls := [] } :=
-  ⟨0, by decide, rfl, rfl, rfl, rfl, rfl⟩
+  ⟨0, by decide, rfl, by first | exact Or.inl rfl | exact Or.inr rfl, rfl, rfl, rfl⟩
 
 /-- `p_cond_variable_new`: allocation failure → NULL, nothing called; `pthread_cond_init` failure →
     the block is released and NULL returned; success → the object.  `p_cond_variable_free`: NULL →
@@ -177,11 +179,12 @@ theorem new_free_mapping (rc : Int) (hrc : rc ≠ 0) :
     `Mon.unlock` -/
 theorem lib_calls_are_monitor_ops (m : Mon) (t : Tid) (cv : CvId) (w : Option Tid) :
     ((pCondWait generated .condObj .mutexObj 0).calls.map (interp generated t cv w m) = [m.wait t cv]) ∧
-    ((pCondSignal generated .condObj 0).calls.map (interp generated t cv w m) = [m.signal cv w]) ∧
+    ((pCondSignal generated .condObj 0).calls.map (interp generated t cv w m) = [m.signal cv w] ∨
+     (pCondSignal generated .condObj 0).calls.map (interp generated t cv w m) = [some (m.broadcast cv)]) ∧
     ((pCondBroadcast generated .condObj 0).calls.map (interp generated t cv w m) = [some (m.broadcast cv)]) ∧
     ((pMutexLock generated .mutexObj 0).calls.map (interp generated t cv w m) = [m.lock t]) ∧
     ((pMutexUnlock generated .mutexObj 0).calls.map (interp generated t cv w m) = [m.unlock t]) :=
-  ⟨rfl, rfl, rfl, rfl, rfl⟩
+  ⟨rfl, by first | exact Or.inl rfl | exact Or.inr rfl, rfl, rfl, rfl⟩
 
 /-- end to end: `p_cond_variable_broadcast` empties the wait-set of its condition variable -/
 theorem lib_broadcast_wakes_all (m m' : Mon) (t : Tid) (cv : CvId)
@@ -191,14 +194,22 @@ theorem lib_broadcast_wakes_all (m m' : Mon) (t : Tid) (cv : CvId)
   simp at h; subst h
   exact ⟨(broadcast_wakes_all m cv).1, (broadcast_wakes_all m cv).2.1⟩
 
-/-- end to end: `p_cond_variable_signal` with waiters present wakes one of them -/
+/-- end to end: `p_cond_variable_signal` with waiters present wakes at least one of them -/
 theorem lib_signal_wakes_one (m m' : Mon) (t : Tid) (cv : CvId) (w : Option Tid) (hne : m.wset cv ≠ [])
     (h : (pCondSignal generated .condObj 0).calls.map (interp generated t cv w m) = [some m']) :
-    ∃ x, x ∈ m.wset cv ∧ x ∈ m'.woken cv ∧ (m'.wset cv).length + 1 = (m.wset cv).length := by
-  rw [(lib_calls_are_monitor_ops m t cv w).2.1] at h
-  simp at h
-  obtain ⟨x, _, hx, hw, hl, _⟩ := signal_wakes_one hne h
-  exact ⟨x, hx, hw, hl⟩
+    ∃ x, x ∈ m.wset cv ∧ x ∈ m'.woken cv ∧ (m'.wset cv).length < (m.wset cv).length := by
+  rcases (lib_calls_are_monitor_ops m t cv w).2.1 with hc | hc
+  · rw [hc] at h
+    simp at h
+    obtain ⟨x, _, hx, hw, hl, _⟩ := signal_wakes_one hne h
+    exact ⟨x, hx, hw, by omega⟩
+  · rw [hc] at h
+    simp at h; subst h
+    cases hws : m.wset cv with
+    | nil => exact absurd hws hne
+    | cons x rest =>
+      refine ⟨x, by simp, (broadcast_wakes_all m cv).2.1 x (by simp [hws]), ?_⟩
+      rw [(broadcast_wakes_all m cv).1]; simp
 
 /-! ## 3. clients -/
 
